@@ -56,4 +56,11 @@ def main():
         c05_bridge.run(R)
     except ImportError:
         pass
+    # S1 end to end: split decision on the real wrapper under chain_split_halt with re-typed values: props/c02_s1.py
+    try:
+        import c02_s1
+    except ImportError:
+        c02_s1 = None
+    if c02_s1 is not None:
+        c02_s1.run(R)
     R.finish()
